@@ -445,6 +445,10 @@ Fixpoint pairs_eqb (a b : list (list N * list N)) : bool :=
 Definition mrun t31 t15 traw tbl P bs :=
   run tst (tab_init t31 t15 traw) tab_step t_eof (fun _ => [])
       (list_oracle (map (fun ab : N * N => (N.to_nat (fst ab), N.to_nat (snd ab))) tbl)) P bs.
+(* the segmentation oracle computed from the scripted segment boundaries alone (not from the reads the implementation made) *)
+Definition mrun_cuts t31 t15 traw (ends : list N) P bs :=
+  run tst (tab_init t31 t15 traw) tab_step t_eof (fun _ => [])
+      (cuts_oracle (List.length bs) (map N.to_nat ends)) P bs.
 Definition check (r : res (response * list N)) (x : expected) : bool :=
   match r, x with
   | Err e, XErr e' => err_eqb e e'
@@ -472,10 +476,16 @@ def coq_params(p):
     return '(mkParams %s %s %s %s)' % (_b(p['head']), _b(p['http10']), _b(p['keep_alive']), _b(p['ignore_length']))
 
 
-def coq_run(m, ex, total=None):
-    """the model invocation for message m under the reads the implementation performed"""
+def coq_run(m, ex, total=None, cuts=None):
+    """the model invocation for message m: under the scripted segmentation `cuts` (the oracle is computed from the segment boundaries,
+    independently of what the implementation read) or, without cuts, under the reads the implementation performed"""
     data = m['bytes']
     total = len(data)
+    if cuts is not None:
+        ends = [c for c in cuts if 0 < c < total] + [total]
+        t = ex.get('tables')
+        tabs = ' '.join(_coq_tab(t[k]) for k in ('W31', 'W15', 'WRaw')) if t else 'E E E'
+        return 'mrun_cuts %s [%s] %s %s' % (tabs, '; '.join(str(e) for e in ends), coq_params(m['params']), coq_bytes(data))
     # oracle table: (pending length before the read, size delivered)
     tbl = []
     for before, size in ex['reads']:
@@ -780,7 +790,7 @@ def correspondence(ctx):
             disagreements.append({'note': 'implementation raised an error kind the model does not have',
                                   'error': ex['error'], 'bytes': msgs[mi]['bytes'].hex(), 'cuts': cuts})
             continue
-        items.append((coq_run(msgs[mi], ex), xt))
+        items.append((coq_run(msgs[mi], ex, cuts=cuts), xt))
         index.append(k)
     failing, errors = model_check(items)
     disagreements += errors
@@ -830,7 +840,7 @@ def correspondence(ctx):
             lock_violations += vs
             xt = coq_expected(m, ex)
             if xt is not None:
-                litems.append((coq_run(m, ex), xt))
+                litems.append((coq_run(m, ex, cuts=cuts), xt))
                 lindex.append((qi, k))
         # every exchange must have run unless wpull closed the connection (Connection: close)
         if len(exl) < len(seq) and not (exl and (exl[-1]['closed'] or exl[-1]['error'])):
@@ -912,7 +922,11 @@ LEVEL_TEXT = ('proof: for ALL byte streams, ALL segmentation oracles and all zli
               'the connection (C08_matches_reference); lockstep sequences on a persistent connection return each message from its first byte '
               '(C08_lockstep); every cut before the payload is complete is ProtocolError/NetworkError (C08_truncated_is_error). '
               'Correspondence only: header-block semantics (obs-fold, field name case, duplicates) and the python primitives.')
-LEVEL_NOTE = ('Not covered by wf_response (model behaviour still segmentation independent and in correspondence): Transfer-Encoding lists such as '
+LEVEL_NOTE = ('Tie detail: the segmentation oracle handed to the model is computed from the scripted segment boundaries alone (Lib/Conn.v '
+              'cuts_oracle: a read returns what is left of the segment its position lies in, up to the requested size), not from the reads the '
+              'implementation made: the model predicts the size of every read, so a change of the requested read sizes shows as a disagreement; the '
+              'implementation-side predicates add segmentation independence over several cuts of the same message and "surplus that arrived with the '
+              'last body byte must not stay on an open connection". Not covered by wf_response (model behaviour still segmentation independent and in correspondence): Transfer-Encoding lists such as '
               '"gzip, chunked", invalid Content-Length (wpull reads until close), lines over the caps; a chunked message cut after the last-chunk '
               'line (only trailers missing) is accepted by wpull; a 64 KiB+ chunk CRLF / trailer line raises a bare ValueError (C09).')
 TECHNIQUE = 'Coq proof over a segmented-connection model with a universally quantified segmentation oracle; vm_compute correspondence with the real readers over a scripted connection'
